@@ -25,7 +25,9 @@ int64_t w_sfd_is_open(uint8_t* h);
 void X__ZN5phosg16cannot_open_fileC1ERKNSt7__cxx1112basic_stringIcSt11char_traitsIcESaIcEEE(uint8_t* self, uint8_t* name) { (void)self; (void)name; }
 #endif
 #define W_CANNOT_OPEN (-21)
-#define FD0 10
+#ifndef FD0
+#define FD0 10   /* first descriptor handed out; cells FD0 = 0 cover the lowest descriptor a process can get */
+#endif
 #define MAXFD (NOPS + 1)
 static int handed;            /* descriptors handed out so far: FD0 .. FD0+handed-1 */
 static int closed[MAXFD + 1]; /* close() calls per descriptor */
